@@ -7,7 +7,7 @@ LEVEL = 'exploration'
 RULE = ('every labelled digraph with self-loops on n nodes (adjacency matrix = '
         'n*n-bit integer) x node encoding (small ints / ints colliding in a '
         'set of 8 slots / identity-keyed objects through the default id() '
-        'transform) x every assignment of encoded values to insertion positions '
+        'transform / tuples / a mix of int, str, tuple, frozenset, float) x how the edges are handed over (one list per node | a set | one shared set object for several nodes plus later calls | two calls per node) x every assignment of encoded values to insertion positions '
         '(all n! for n<=4) x sink handling (add_neighbors called for every node '
         '| only for nodes with out-edges) x (no | one edge per node to an '
         'unknown node); a case is non-trivial when the graph has >=1 edge; '
@@ -26,7 +26,9 @@ BOUND = {
 CHUNK = 4
 BLOCK = 4096
 
-ENCODINGS = ('int', 'collide', 'ident')
+ENCODINGS = ('int', 'collide', 'ident', 'tuple', 'mixed')
+# how the edges are handed to add_neighbors
+BUILDS = ('list', 'set', 'shared', 'steps')
 
 
 def setup_worker():
@@ -44,11 +46,19 @@ def cases(tier, seed):
             for perm in perms:
                 if enc == 'ident' and perm != perms[0]:
                     continue  # object ids are not ours to order
+                if enc in ('tuple', 'mixed') and perm != perms[0]:
+                    continue
                 for lazy in (True, False):
                     for unknown in (False, True):
                         for start in range(0, total, BLOCK):
                             yield [n, start, min(total, start + BLOCK), enc,
                                    list(perm), lazy, unknown]
+                # other ways of building the same graph (hashable nodes)
+                if enc in ('int', 'tuple') and perm == perms[0]:
+                    for build in BUILDS[1:]:
+                        for start in range(0, total, BLOCK):
+                            yield [n, start, min(total, start + BLOCK), enc,
+                                   list(perm), True, False, build]
     if tier == 'thorough':
         n = 5
         total = 1 << 25
@@ -93,7 +103,10 @@ class _N:
         self.i = i
 
 
-def run_graph(n, bits, enc, perm, lazy, unknown):
+MIXED = [0, 'a', (1,), frozenset({2}), 3.5]
+
+
+def run_graph(n, bits, enc, perm, lazy, unknown, build='list'):
     comps, cyc, adj = expected(n, bits)
     if enc == 'int':
         vals = [perm[i] for i in range(n)]
@@ -103,6 +116,15 @@ def run_graph(n, bits, enc, perm, lazy, unknown):
         vals = [8 * perm[i] for i in range(n)]
         mh = None
         unk = 64
+    elif enc == 'tuple':
+        # nodes that are tuples themselves (dotted-name parts, coordinates)
+        vals = [(perm[i],) if i % 2 == 0 else (perm[i], 'x') for i in range(n)]
+        mh = None
+        unk = (99,)
+    elif enc == 'mixed':
+        vals = [MIXED[perm[i]] for i in range(n)]
+        mh = None
+        unk = 'unknown' 
     else:
         vals = [_N(i) for i in range(n)]
         mh = id
@@ -111,12 +133,41 @@ def run_graph(n, bits, enc, perm, lazy, unknown):
     viol = []
     try:
         g = DiGraph(vals, make_hashable=mh) if mh is None else DiGraph(vals)
-        for i in range(n):
-            nb = [vals[j] for j in range(n) if (adj[i] >> j) & 1]
-            if unknown:
-                nb.append(unk)
-            if nb or not lazy:
-                g.add_neighbors(vals[i], nb)
+        nbs = [[vals[j] for j in range(n) if (adj[i] >> j) & 1] for i in range(n)]
+        if build == 'list':
+            for i in range(n):
+                nb = nbs[i]
+                if unknown:
+                    nb.append(unk)
+                if nb or not lazy:
+                    g.add_neighbors(vals[i], nb)
+        elif build == 'set':
+            for i in range(n):
+                if nbs[i]:
+                    g.add_neighbors(vals[i], set(nbs[i]))
+        elif build == 'steps':
+            # the edges of a node arrive in two calls
+            for rnd in (0, 1):
+                for i in range(n):
+                    part = nbs[i][rnd::2]
+                    if part:
+                        g.add_neighbors(vals[i], part if rnd else tuple(part))
+        else:
+            # 'shared': the caller passes ONE set object (what all nodes with
+            # out-edges have in common) for several nodes, then each node's
+            # remaining edges in a later call
+            have = [i for i in range(n) if nbs[i]]
+            common = set(nbs[have[0]]) if have else set()
+            for i in have[1:]:
+                common &= set(nbs[i])
+            shared = set(common)
+            if shared:
+                for i in have:
+                    g.add_neighbors(vals[i], shared)
+            for i in have:
+                rest = set(nbs[i]) - common
+                if rest:
+                    g.add_neighbors(vals[i], rest)
         for trivial, want in ((True, comps), (False, cyc)):
             got = list(g.sccs(trivial)) if trivial else list(g.sccs())
             masks = []
@@ -142,13 +193,14 @@ def run_graph(n, bits, enc, perm, lazy, unknown):
 
 
 def run_case(case):
-    n, start, stop, enc, perm, lazy, unknown = case
+    n, start, stop, enc, perm, lazy, unknown = case[:7]
+    build = case[7] if len(case) > 7 else 'list'
     violations = []
     nt = 0
     for bits in range(start, stop):
         if bits:
             nt += 1
-        vs = run_graph(n, bits, enc, perm, lazy, unknown)
+        vs = run_graph(n, bits, enc, perm, lazy, unknown, build)
         for v in vs:
             if len(violations) < 5:
                 violations.append({
@@ -156,9 +208,9 @@ def run_case(case):
                     'sig': {'lazy_sink': lazy, 'trivial': v[1]}
                     if v[0] != 'exception' else {'lazy_sink': lazy, 'exc': v[1]},
                     'detail': 'n=%d adjacency bits=%s enc=%s perm=%s lazy=%s '
-                              'unknown=%s -> %r' % (n, bin(bits), enc, perm,
-                                                    lazy, unknown, v),
-                    'case': [n, bits, bits + 1, enc, perm, lazy, unknown],
+                              'unknown=%s build=%s -> %r' % (n, bin(bits), enc, perm,
+                                                             lazy, unknown, build, v),
+                    'case': [n, bits, bits + 1, enc, perm, lazy, unknown, build],
                 })
     return {'evals': stop - start, 'nontrivial': nt, 'violations': violations,
             'outcome': len(violations) > 0}
